@@ -34,3 +34,42 @@ Proof.
          (mkps [(empty_memo, [])] None false).
   eexists. eexists. split; [vm_compute; reflexivity|]. split; discriminate.
 Qed.
+
+(* ---------- the transient flags ---------- *)
+Lemma pytree_check_flags_true st l sopt x s : pytree_check_flags st true l sopt x s = leafmatch st (LPyTree l sopt) x s.
+Proof.
+  rewrite leafmatch_pytree. unfold pytree_check_flags, pytree_body_flags, pytree_body.
+  destruct x as [a|k cs]; [|destruct k; try reflexivity; destruct cs; try reflexivity];
+  cbv zeta; destruct (flatten_with _ _ _) as [[fl s1] e]; destruct fl as [[lv sx]|]; try reflexivity;
+  destruct (top_frame (with_flat s1 false)) as [m tm];
+  destruct (match sopt with None => StOk tm | Some str => structure_step (read_structure str) sx tm end); try reflexivity;
+  destruct (leaf_loop _ _ _ _ _) as [vd s4]; destruct vd; reflexivity.
+Qed.
+
+Theorem pytree_check_flags_reset fp st l sopt x s vd s' :
+  fp = true -> pytree_check_flags st fp l sopt x s = (vd, s') ->
+  (ps_flat s = false -> ps_flat s' = false) /\ (ps_path s = None -> ps_path s' = None).
+Proof.
+  intros -> H. rewrite pytree_check_flags_true in H. split; intros H0.
+  - eapply check_leaves_flatten_mode_off; eauto.
+  - eapply check_leaves_no_leaf_position; eauto.
+Qed.
+
+(* without the finally around the leaf loop: a structured tree whose second leaf does not match leaves the '?'-leaf
+   position SET *)
+Theorem leaf_position_without_finally_refuted : exists st l sopt x s vd s',
+  pytree_check_flags st false l sopt x s = (vd, s') /\ ps_path s = None /\ ps_path s' <> None.
+Proof.
+  exists [], (LArr (AC None "a")), (Some "T"),
+         (Node KTuple [Leaf (PArr (mkvalue true true "float32" [3]%Z)); Leaf (PArr (mkvalue true true "float32" [4]%Z))]),
+         (mkps [(empty_memo, [])] None false).
+  eexists. eexists. split; [vm_compute; reflexivity|]. split; [reflexivity | discriminate].
+Qed.
+
+(* ---------- the disabled wrapper ---------- *)
+Theorem wrapper_trace_src_transparent early d n1 n2 c :
+  early = true -> d || n1 || n2 = true -> wrapper_trace_src early d n1 n2 c = [EBody].
+Proof. intros -> H. unfold wrapper_trace_src, wrapper_trace. rewrite H. reflexivity. Qed.
+
+Theorem late_disable_test_refuted : exists d n1 n2 c, d || n1 || n2 = true /\ wrapper_trace_src false d n1 n2 c <> [EBody].
+Proof. exists true, false, false, (mkcall true true false true). split; [reflexivity | discriminate]. Qed.
